@@ -951,10 +951,27 @@ public:
    {
       if (!vd->hasGlobalStorage() || vd->isLocalVarDecl()) return;
       if (vd->isStaticLocal()) return;
-      if (!vd->hasInit()) return;
       if (vd->getDeclContext()->isDependentContext()) return;
       std::string rel; unsigned line = 0;
       if (!underRoot(vd->getLocation(), &rel, &line)) return;
+      if (vd->isThisDeclarationADefinition() && !vd->getType()->isDependentType())
+      {
+         // storage record for every namespace-scope / static-member variable definition: type and whether it is thread-local
+         std::string gq = genericName(vd);
+         if (_seenRecs.insert("gvar " + gq + "@" + rel).second)
+         {
+            Out g;
+            g.buf += "{\"k\":\"gvar\"";
+            g.s("q", gq);
+            g.s("file", rel);
+            g.n("line", line);
+            g.n("t", typeIdx(vd->getType()));
+            g.n("tls", vd->getTLSKind() != VarDecl::TLS_None ? 1 : 0);
+            g.buf += "}\n";
+            _os << g.buf;
+         }
+      }
+      if (!vd->hasInit()) return;
       const Expr * init = vd->getInit();
       if (!init || init->isValueDependent()) return;
       std::string q = genericName(vd);
